@@ -3,6 +3,8 @@ import GramModel.Check
 import GramModel.Oracle
 import GramModel.Lemmas.Progress
 import GramModel.Typing
+import GramModel.Lemmas.Canonical
+import GramModel.Lemmas.SoundRun
 
 /-!
 # C01 — accepted programs never get stuck (progress)
@@ -92,6 +94,8 @@ available yet (the recorded finding KF-order), or at a division by zero — neve
 def C01_declarative_progress_stmt : Prop :=
   ∀ (t T : Tm), t.holeFree = true → HasType [] [] t T →
     isValue t = true ∨ (∃ t', Step t t') ∨ stuckReason t = some .variable ∨ stuckReason t = some .divZero
+theorem C01_declarative_progress : C01_declarative_progress_stmt :=
+  fun _ _ _ h => Canonical.progress Canonical.DWF_nil h
 
 /-- **Type soundness of gram's checker model on fully annotated programs.**  If the model of the checker
 accepts a closed hole-free program without error, then however many steps the program is run, the term
@@ -103,3 +107,37 @@ def C01_checker_sound_run_stmt : Prop :=
     inferS fuel t {} = .ok (e, ty) s → s.nerrs = 0 →
     let r := evalFuel n t
     isValue r = true ∨ (∃ r', Step r r') ∨ stuckReason r = some .variable ∨ stuckReason r = some .divZero
+
+/-- **Type soundness on the group-free fragment** (functions, dependent function types, arithmetic,
+comparisons, conditionals — no definition groups).  Subject reduction holds there
+(`C04_preservation_nolet`); for groups it fails for *intermediate* terms w.r.t. the declarative rules
+(`C04_preservation_refuted`: unfolding the first definition re-binds its variable in front of a group whose
+other members already mention the unfolding — the program still runs fine, but the intermediate term has no
+type), which is why `C01_checker_sound_run_stmt` above stays open. -/
+def C01_checker_sound_run_nolet_stmt : Prop :=
+  ∀ (fuel n : Nat) (t e ty : Tm) (s : St), t.holeFree = true → wellScoped 0 t = true → CheckSound.noLet t = true →
+    inferS fuel t {} = .ok (e, ty) s → s.nerrs = 0 →
+    let r := evalFuel n t
+    isValue r = true ∨ (∃ r', Step r r') ∨ stuckReason r = some .divZero
+theorem C01_checker_sound_run_nolet : C01_checker_sound_run_nolet_stmt :=
+  fun fuel n t e ty s ht _ hnl h hn => SoundRun.checker_sound_run_nolet fuel n t e ty s ht hnl h hn
+
+/-- The hypotheses of `C01_checker_sound_run_nolet` are satisfiable on non-trivial programs (checked by the
+kernel): the polymorphic identity instantiated and applied, `((a : type) => (x : a) => x) int 3`, is hole-free,
+closed, group-free and accepted without diagnostics (checker fuel 40); run for 5 steps it is the value `3`. -/
+example : ∃ (fuel n : Nat) (t e ty : Tm) (s : St), t.holeFree = true ∧ wellScoped 0 t = true ∧
+    CheckSound.noLet t = true ∧ inferS fuel t {} = .ok (e, ty) s ∧ s.nerrs = 0 ∧
+    t = .app (.app (.lam 1 false .type (.lam 2 false (.var 1 0) (.var 2 0))) .int) (.lit 3) ∧
+    evalFuel n t = .lit 3 :=
+  let ⟨e, ty, s, h1, h2, h3, h4, h5, _, _, h8⟩ := SoundRun.demoOK_spec SoundRun.idProg_ok
+  ⟨40, 5, SoundRun.idProg, e, ty, s, h1, h2, h3, h4, h5, rfl, h8⟩
+
+/-- The same for a program with a higher-order function, a conditional, arithmetic and a comparison:
+`((f : int -> int) => (b : bool) => if b then f (2 * 3) else 0 - 1) ((y : int) => y + 1) (1 < 2)` is accepted
+and runs to `7` in 10 steps, every intermediate term being a value or able to step
+(`C01_checker_sound_run_nolet` instantiated). -/
+example : ∀ n, isValue (evalFuel n SoundRun.iteProg) = true ∨ (∃ r', Step (evalFuel n SoundRun.iteProg) r') ∨
+    stuckReason (evalFuel n SoundRun.iteProg) = some .divZero :=
+  fun n =>
+    let ⟨e, ty, s, h1, h2, h3, h4, h5, _⟩ := SoundRun.demoOK_spec SoundRun.iteProg_ok
+    C01_checker_sound_run_nolet 40 n SoundRun.iteProg e ty s h1 h2 h3 h4 h5
